@@ -257,7 +257,7 @@ func (fr *frame) runDefer(d *deferred) {
 // without being observable by the target program.
 func isEnginePanic(r interface{}) bool {
 	switch r.(type) {
-	case pathEnd, exitPanic:
+	case pathEnd, exitPanic, taskKilled:
 		return true
 	case *runtime.TypeAssertionError:
 		return true
